@@ -181,12 +181,18 @@ def r_simdate(E):
                                   "naive date")
     rel, fn = pm.find_function(MU, "ModelingUpdate.filter_hourly_quantities_to_filter")
     res.instances += 1
-    cmp_ = [n for n in ast.walk(fn) if isinstance(n, ast.Compare) and "simulation_date" in norm(n)]
+    derived = {"simulation_date"}
+    for _ in range(3):
+        for n in ast.walk(fn):
+            if isinstance(n, ast.Assign) and isinstance(n.targets[0], ast.Name) and any(d in norm(n.value) for d in derived):
+                derived.add(n.targets[0].id)
+    cmp_ = [n for n in ast.walk(fn) if isinstance(n, ast.Compare) and any(d in norm(n) for d in derived)
+            and isinstance(n.ops[0], (ast.Lt, ast.LtE, ast.Gt, ast.GtE))]
     if len(cmp_) != 1:
         res.undecided.append("filter_hourly_quantities_to_filter: filtering comparison not found")
     else:
         c = cmp_[0]
-        left_is_date = "simulation_date" in norm(c.left)
+        left_is_date = any(d in norm(c.left) for d in derived)
         op = type(c.ops[0])
         keeps_after = (op in (ast.GtE, ast.Gt) and not left_is_date) or (op in (ast.LtE, ast.Lt) and left_is_date)
         if not keeps_after:
@@ -498,6 +504,14 @@ def r_accum(E):
                             term = st.value.right
                     else:
                         term = st.value
+                        if not isinstance(st.op, (ast.Add, ast.BitOr)):
+                            res.findings.append(Finding(
+                                "R-ACCUM", f"{q} scales {v} inside the loop :: {norm(st)[:80]}",
+                                f"{q}: the accumulator `{v}` is multiplied / divided inside the loop over "
+                                f"`{norm(L.iter)[:40]}` (`{norm(st)[:50]}`): the factor is applied once per element met so "
+                                f"far, so the result depends on how many elements there are and on their order (a "
+                                f"set-derived order changes between runs)", rel, st.lineno, q))
+                            continue
                     if term is not None and _mentions(term, v):
                         res.findings.append(Finding(
                             "R-ACCUM", f"{q} compounds {v} :: {norm(st)[:80]}",
@@ -749,5 +763,352 @@ def r_replace_sym(E):
                                                 fn.name))
     if not checked:
         res.undecided.append("replace primitive: type-compatibility guard not found")
+    res.floor = 2
+    return res
+
+
+# ---------------------------------------------------------------------------------------------- R-TZREPLACE (C06, C11)
+@rule("R-TZREPLACE")
+def r_tzreplace(E):
+    pm = E.pm
+    res = RuleResult("R-TZREPLACE", "`.replace(tzinfo=...)` re-labels a datetime without converting it: it is only applied "
+                                    "to a value just tested naive (`x.tzinfo is None`), never to an aware instant such as "
+                                    "the simulation date")
+    for mod, (rel, tree, src) in sorted(pm.modules.items()):
+        for c in [n for n in ast.walk(tree) if isinstance(n, ast.Call) and isinstance(n.func, ast.Attribute)
+                  and n.func.attr == "replace" and any(k.arg == "tzinfo" for k in n.keywords)]:
+            res.instances += 1
+            recv = norm(c.func.value)
+            fn = c
+            while fn is not None and not isinstance(fn, ast.FunctionDef):
+                fn = getattr(fn, "_parent", None)
+            guarded = False
+            x = c
+            while x is not None and x is not fn:
+                par = getattr(x, "_parent", None)
+                if isinstance(par, ast.If) and any(x is s or any(y is x for y in ast.walk(s)) for s in par.body):
+                    if norm(par.test) == f"{recv}.tzinfo is None":
+                        guarded = True
+                x = par
+            q = fn.name if fn is not None else "<module>"
+            if not guarded:
+                res.findings.append(Finding(
+                    "R-TZREPLACE", f"{rel}:{q} :: {norm(c)[:80]}",
+                    f"{q}: `{norm(c)[:70]}` changes the time zone label of `{recv}` without converting the instant and is not "
+                    f"guarded by `{recv}.tzinfo is None`: an aware date given in another zone is shifted by its UTC offset "
+                    f"(or a local-time index is compared with a UTC date)", rel, c.lineno, q))
+            elif len(res.samples) < 3:
+                res.samples.append({"site": f"{rel}:{c.lineno} {q}", "call": norm(c)[:70], "verdict": "receiver tested naive"})
+    res.floor = 2
+    return res
+
+
+# ---------------------------------------------------------------------------------------------- R-VALUESTORE (C07, C11, C18)
+@rule("R-VALUESTORE")
+def r_valuestore(E):
+    pm = E.pm
+    res = RuleResult("R-VALUESTORE", "only the explainable classes' own methods store into `.value`: a value rewritten from "
+                                     "outside no longer is what its recorded operation on its recorded operands produces")
+    own = {"ExplainableObject", "EmptyExplainableObject", "ExplainableQuantity", "ExplainableHourlyQuantities"}
+    n_scanned = 0
+    for mod, (rel, tree, src) in sorted(pm.modules.items()):
+        for n in ast.walk(tree):
+            if not isinstance(n, (ast.Assign, ast.AugAssign)):
+                continue
+            n_scanned += 1
+            for t in (n.targets if isinstance(n, ast.Assign) else [n.target]):
+                b = t
+                while isinstance(b, ast.Subscript):
+                    b = b.value
+                if not (isinstance(b, ast.Attribute) and b.attr == "value"):
+                    continue
+                cls = fn = n
+                while fn is not None and not isinstance(fn, ast.FunctionDef):
+                    fn = getattr(fn, "_parent", None)
+                while cls is not None and not isinstance(cls, ast.ClassDef):
+                    cls = getattr(cls, "_parent", None)
+                res.instances += 1
+                if cls is not None and cls.name in own and isinstance(b.value, ast.Name) and b.value.id == "self":
+                    continue
+                q = (f"{cls.name}.{fn.name}" if cls is not None else fn.name) if fn is not None else "<module>"
+                res.findings.append(Finding(
+                    "R-VALUESTORE", f"{rel}:{q} :: {norm(n)[:80]}",
+                    f"{q} stores into `{norm(b)}` from outside the explainable classes (`{norm(n)[:60]}`): the value is no "
+                    f"longer the result of the operation recorded for it (and whatever shares its frame changes too)", rel,
+                    n.lineno, q))
+    res.floor = 4
+    return res
+
+
+# ---------------------------------------------------------------------------------------------- JSON loader / writers (C13)
+@rule("R-JSON-LOAD")
+def r_json_load(E):
+    pm = E.pm
+    res = RuleResult("R-JSON-LOAD", "the loader converts every saved attribute unconditionally within its kind branch "
+                                    "(link, list of links, explainable value), creates objects from the sections of the "
+                                    "*upgraded* dict, and resets every calculated attribute")
+    rel, fn = pm.find_function(J2S, "json_to_system")
+    wrappers = {"ListLinkedToModelingObj": "list of links", "ContextualModelingObjectAttribute": "link",
+                "json_to_explainable_object": "explainable value"}
+    for c in _calls(fn):
+        nm = c.func.id if isinstance(c.func, ast.Name) else None
+        if nm not in wrappers:
+            continue
+        res.instances += 1
+        # enclosing ifs up to the nearest for loop over attributes
+        extra = []
+        x = c
+        while x is not None and x is not fn:
+            par = getattr(x, "_parent", None)
+            if isinstance(par, ast.For):
+                break
+            if isinstance(par, ast.If) and not any(x is g or any(y is x for y in ast.walk(g)) for g in [par.test]):
+                t = norm(par.test)
+                if "type(" not in t and "isinstance(" not in t:
+                    extra.append(t)
+            x = par
+        if extra:
+            res.findings.append(Finding(
+                "R-JSON-LOAD", f"{nm} conditional on {extra[0][:50]}",
+                f"json_to_system only converts a saved {wrappers[nm]} when `{extra[0][:60]}`: otherwise the raw JSON value "
+                f"(a plain list / id string / dict) stays on the loaded object — re-export raises or edits through it "
+                f"bypass the update machinery", rel, c.lineno, "json_to_system"))
+        elif len(res.samples) < 3:
+            res.samples.append({"conversion": nm, "verdict": "unconditional within its kind branch"})
+    # object creation reads the sections after the upgrade handlers ran
+    upg = next((n for n in ast.walk(fn) if isinstance(n, ast.For) and any(
+        isinstance(x, ast.Name) and x.id == "VERSION_UPGRADE_HANDLERS" for x in ast.walk(n))), None)
+    creation = next((n for n in fn.body if isinstance(n, ast.For) and any(
+        isinstance(c, ast.Call) and isinstance(c.func, ast.Attribute) and c.func.attr == "__new__" for c in ast.walk(n))), None)
+    res.instances += 1
+    if upg is None or creation is None:
+        res.undecided.append("json_to_system: upgrade loop or creation loop not found")
+    else:
+        src_line = creation.lineno
+        it = creation.iter
+        if isinstance(it, ast.Name):
+            defs = [n for n in ast.walk(fn) if isinstance(n, ast.Assign) and norm(n.targets[0]) == it.id]
+            src_line = min(d.lineno for d in defs) if defs else creation.lineno
+            it = defs[0].value if defs else it
+        if "system_dict" not in norm(it):
+            res.undecided.append("json_to_system: creation loop does not iterate over system_dict")
+        elif src_line < upg.lineno:
+            res.findings.append(Finding(
+                "R-JSON-LOAD", "sections listed before the upgrade",
+                "json_to_system lists the class sections of the file before the version upgrade handlers have run: "
+                "sections renamed by a handler (Hardware -> Device for 9.x files) are never created", rel, src_line,
+                "json_to_system"))
+        if "in efootprint_classes_dict" in norm(it):
+            res.findings.append(Finding("R-JSON-LOAD", "unknown sections dropped",
+                                        "sections whose class is unknown are silently skipped instead of failing", rel,
+                                        src_line, "json_to_system"))
+    # calculated attributes reset
+    res.instances += 1
+    reset = [n for n in ast.walk(fn) if isinstance(n, ast.For) and "calculated_attributes" in norm(n.iter)]
+    if not reset or not any("EmptyExplainableObject()" in norm(c) for c in _calls(reset[0])):
+        res.findings.append(Finding("R-JSON-LOAD", "calculated attributes not reset",
+                                    "loaded objects no longer get an empty placeholder for each calculated attribute", rel,
+                                    fn.lineno, "json_to_system"))
+    res.floor = 5
+    return res
+
+
+@rule("R-JSON-SIB")
+def r_json_sib(E):
+    pm = E.pm
+    res = RuleResult("R-JSON-SIB", "all to_json implementations reached through the one dispatch "
+                                   "`value.to_json(<save calculated attributes>)` agree on what their first positional "
+                                   "parameter means; scalar values are written without rounding, hourly values with the "
+                                   "documented 3 decimals")
+    sigs = {}
+    for cn, ci in sorted(pm.classes.items()):
+        if pm.is_model(cn):
+            continue
+        fn = next((f for f in pm.own_methods(cn) if f.name == "to_json"), None)
+        if fn is None:
+            continue
+        params = [a.arg for a in fn.args.args[1:]]
+        sigs[cn] = (params, fn, ci.path)
+    first = {}
+    for cn, (params, fn, path) in sigs.items():
+        res.instances += 1
+        first[cn] = params[0] if params else None
+    common = max(set(first.values()), key=list(first.values()).count) if first else None
+    # dispatch sites pass the flag positionally?
+    positional = False
+    for suffix, q in ((MO, "ModelingObject.to_json"), ("abstract_modeling_classes/explainable_object_dict.py",
+                                                       "ExplainableObjectDict.to_json")):
+        rel, fn = pm.find_function(suffix, q)
+        for c in _calls(fn):
+            if isinstance(c.func, ast.Attribute) and c.func.attr == "to_json" and c.args:
+                positional = True
+    for cn, p in sorted(first.items()):
+        if p != common and positional:
+            params, fn, path = sigs[cn]
+            res.findings.append(Finding(
+                "R-JSON-SIB", f"{cn}.to_json first parameter {p}",
+                f"{cn}.to_json({', '.join(params)}) takes `{p}` first while its siblings take `{common}`, and the writers "
+                f"call `value.to_json(flag)` positionally: the save-calculated-attributes flag lands in `{p}` (hourly "
+                f"inputs are saved rounded to 0 or 1 decimals instead of 3, and their graph data is never saved)", path,
+                fn.lineno, f"{cn}.to_json"))
+    # lossless scalar writer; documented rounding of the hourly writer
+    rel, eq = pm.find_function("abstract_modeling_classes/explainable_objects.py", "ExplainableQuantity.to_json")
+    res.instances += 1
+    for d in [n for n in ast.walk(eq) if isinstance(n, ast.Dict)]:
+        for k, v in zip(d.keys, d.values):
+            if isinstance(k, ast.Constant) and k.value == "value":
+                lossy = [c for c in ast.walk(v) if isinstance(c, ast.Call) and (
+                    (isinstance(c.func, ast.Name) and c.func.id in ("round", "int", "floor", "ceil", "trunc"))
+                    or (isinstance(c.func, ast.Attribute) and c.func.attr in ("round", "floor", "ceil", "trunc", "rint")))]
+                if lossy:
+                    res.findings.append(Finding(
+                        "R-JSON-SIB", "ExplainableQuantity.to_json rounds",
+                        f"scalar inputs are written as `{norm(v)[:60]}`: an absolute rounding in the value's own unit "
+                        f"(8.02e-13 s becomes 0) — the loaded model has other inputs than the saved one, although a second "
+                        f"export gives the same JSON", rel, v.lineno, "ExplainableQuantity.to_json"))
+    rel, hq = pm.find_function("abstract_modeling_classes/explainable_objects.py", "ExplainableHourlyQuantities.to_json")
+    res.instances += 1
+    dflt = {a.arg: d for a, d in zip(hq.args.args[-len(hq.args.defaults):], hq.args.defaults)} if hq.args.defaults else {}
+    rd = dflt.get("rounding_depth")
+    if rd is None or not isinstance(rd, ast.Constant) or not isinstance(rd.value, int) or rd.value < 3:
+        res.findings.append(Finding("R-JSON-SIB", "hourly rounding depth", "hourly values are no longer written with (at "
+                                    "least) the documented 3 decimals by default", rel, hq.lineno, hq.name))
+    res.samples = [{"class": cn, "first_positional_parameter": p} for cn, p in sorted(first.items())]
+    res.floor = 6
+    return res
+
+
+# ---------------------------------------------------------------------------------------------- R-NOOP (C16, C01)
+@rule("R-NOOP")
+def r_noop(E):
+    pm = E.pm
+    res = RuleResult("R-NOOP", "ModelingUpdate skips a change only when the new value *equals* the old one (`==`: for lists "
+                               "same elements, same order, same multiplicity); any coarser test drops real edits "
+                               "(permutations, duplicate-only changes)")
+    rel, fn = pm.find_function(MU, "ModelingUpdate.parse_changes_list")
+    skips = [n for n in ast.walk(fn) if isinstance(n, ast.If) and any(
+        isinstance(c.func, ast.Attribute) and c.func.attr == "append" and "skip" in norm(c.func.value) for c in _calls(n))]
+    res.instances += 1
+    if len(skips) != 1:
+        res.undecided.append("parse_changes_list: skip decision not found")
+        return res
+    t = skips[0].test
+    p = [norm(x) for x in (fn.args.args[1:])]
+    # resolve a local flag to its definitions
+    exprs = [t]
+    if isinstance(t, ast.Name):
+        exprs = [n.value for n in ast.walk(fn) if isinstance(n, ast.Assign) and norm(n.targets[0]) == t.id]
+    ok_shape = lambda e: isinstance(e, ast.Compare) and len(e.ops) == 1 and isinstance(e.ops[0], ast.Eq) and \
+        {norm(e.left), norm(e.comparators[0])} == {"old_value", "new_value"}
+    bad = [e for e in exprs if not ok_shape(e)]
+    if bad:
+        coarse = any(isinstance(x, ast.Compare) and isinstance(x.ops[0], (ast.In, ast.NotIn)) or
+                     (isinstance(x, ast.Call) and norm(x.func) in ("len", "set", "all", "any", "sorted")) for e in bad for x in ast.walk(e))
+        if coarse:
+            res.findings.append(Finding(
+                "R-NOOP", "skip test coarser than equality",
+                f"parse_changes_list skips a change when `{norm(bad[0])[:90]}`: that holds for lists that differ in order "
+                f"or multiplicity, so `uj.uj_steps = [s3, s1, s2]` or `step.jobs = [j1, j1]` is silently ignored (forward "
+                f"links, reverse look-ups and footprints keep the old list)", rel, bad[0].lineno, fn.name))
+        else:
+            res.undecided.append(f"parse_changes_list: skip test `{norm(bad[0])[:60]}` not recognised")
+    res.floor = 1
+    return res
+
+
+# ---------------------------------------------------------------------------------------------- R-RULE-TXN (C15)
+@rule("R-RULE-TXN")
+def r_rule_txn(E):
+    pm = E.pm
+    res = RuleResult("R-RULE-TXN", "an update rule that can refuse (raise) does so before it assigns its attribute: a value "
+                                   "installed just before the raise is not among the values the failed update puts back")
+    for (c, x), cx in E.contexts().items():
+        if cx is None:
+            continue
+        owner, fn = pm.find_method(c, "update_" + x)
+        fns = {(owner, fn.name): (owner, fn)}
+        for q in set(cx.calls):
+            k, m = q.split(".", 1)
+            if k in pm.classes:
+                o2, f2 = pm.find_method(k, m)
+                if f2 is not None and any(isinstance(n, ast.Raise) for n in ast.walk(f2)):
+                    fns[(k, m)] = (k, f2)
+        for (k, m), (o, f) in fns.items():
+            raises = [n for n in ast.walk(f) if isinstance(n, ast.Raise)]
+            if not raises:
+                continue
+            writes = [n for n in ast.walk(f) if isinstance(n, ast.Assign) and any(
+                isinstance(t, ast.Attribute) and isinstance(t.value, ast.Name) and t.value.id == "self" and t.attr == x
+                for t in n.targets)]
+            res.instances += 1
+            for r in raises:
+                early = [w for w in writes if w.lineno < r.lineno and not _exclusive(w, r, f)]
+                if early:
+                    key = f"{k}.{m} assigns self.{x} before raising"
+                    if not any(fd.key == key for fd in res.findings):
+                        res.findings.append(Finding(
+                            "R-RULE-TXN", key,
+                            f"{k}.{m} assigns self.{x} (line {early[0].lineno}) and validates afterwards (raise at line "
+                            f"{r.lineno}): when the edit is refused the invalid value stays installed — it is not in the "
+                            f"list of recomputed values the failed update restores — and the next edit computes from it",
+                            pm.path_of(k), early[0].lineno, f"{k}.{m}"))
+    res.floor = 5
+    return res
+
+
+def _exclusive(a, b, fn):
+    """a and b sit on different arms of one if/else (cannot both execute)"""
+    def chain(n):
+        out = []
+        x = n
+        while x is not None and x is not fn:
+            par = getattr(x, "_parent", None)
+            if isinstance(par, ast.If):
+                out.append((id(par), "body" if any(x is s or any(y is x for y in ast.walk(s)) for s in par.body) else "orelse"))
+            x = par
+        return dict(out)
+    ca, cb = chain(a), chain(b)
+    return any(k in cb and cb[k] != v for k, v in ca.items())
+
+
+# ---------------------------------------------------------------------------------------------- R-ATTACH (C08, C05, C16)
+@rule("R-ATTACH")
+def r_attach(E):
+    pm = E.pm
+    res = RuleResult("R-ATTACH", "wherever one value replaces another in a model object, the old value is detached before "
+                                 "the new one is attached (both share one identifier and the ancestors' child lists are "
+                                 "de-duplicated by identifier), and the old value is detached whatever its kind")
+    sites = [("abstract_modeling_classes/object_linked_to_modeling_obj.py",
+              "ObjectLinkedToModelingObj.replace_in_mod_obj_container_without_recomputation"),
+             (MO, "ModelingObject.__setattr__")]
+    for suffix, q in sites:
+        rel, fn = pm.find_function(suffix, q)
+        res.instances += 1
+        det = [c for c in _calls(fn) if isinstance(c.func, ast.Attribute) and c.func.attr == "set_modeling_obj_container"
+               and [norm(a) for a in c.args] == ["None", "None"]]
+        att = [c for c in _calls(fn) if isinstance(c.func, ast.Attribute) and c.func.attr == "set_modeling_obj_container"
+               and [norm(a) for a in c.args] != ["None", "None"] and len(c.args) == 2]
+        if not det or not att:
+            res.findings.append(Finding("R-ATTACH", f"{q} detach/attach", f"{q} no longer detaches the replaced value and "
+                                        f"attaches the new one", rel, fn.lineno, q))
+            continue
+        if det[0].lineno > att[0].lineno:
+            res.findings.append(Finding(
+                "R-ATTACH", f"{q} attaches before detaching",
+                f"{q} attaches the new value before detaching the old one: both have the same id, so each common ancestor "
+                f"skips the new value as a duplicate child and then drops the only entry when the old one is detached — the "
+                f"dependency ends up listed on neither end", rel, att[0].lineno, q))
+        # the detach is not restricted to some kinds of value
+        g = getattr(getattr(det[0], "_parent", None), "_parent", None)
+        if isinstance(g, ast.If):
+            t = g.test
+            extra = isinstance(t, ast.BoolOp) and isinstance(t.op, ast.And) and any(
+                isinstance(v, ast.UnaryOp) and isinstance(v.op, ast.Not) and "isinstance" in norm(v) for v in t.values)
+            if extra:
+                res.findings.append(Finding(
+                    "R-ATTACH", f"{q} detach restricted",
+                    f"{q} only detaches the previous value when `{norm(t)[:80]}`: a previous value of the excluded kind "
+                    f"(an empty result that has ancestors) stays registered as child of its ancestors after it was "
+                    f"replaced, and the replacement is refused as a duplicate", rel, g.lineno, q))
     res.floor = 2
     return res
